@@ -637,9 +637,20 @@ fn parse_module_tree(
     };
 
     // Let's prime the cache with the module dependency and hash data.
+    // `src` was read a while ago and the file may have been rewritten since (the language server
+    // writes documents while a compilation runs). The modification time is only paired with the
+    // parsed text if the file still holds that text; otherwise the cache would later accept the
+    // newer file as unchanged because its modification time matches.
     let modified_time = std::fs::metadata(path.as_path())
         .ok()
-        .and_then(|m| m.modified().ok());
+        .and_then(|m| m.modified().ok())
+        .filter(|_| {
+            std::fs::read_to_string(path.as_path()).is_ok_and(|current| {
+                let mut hasher = DefaultHasher::new();
+                current.hash(&mut hasher);
+                hasher.finish() == hash
+            })
+        });
     let dependencies = submodules.into_iter().map(|s| s.path).collect::<Vec<_>>();
     let version = lsp_mode
         .and_then(|lsp| lsp.file_versions.get(path.as_ref()).copied())
